@@ -172,3 +172,15 @@ package labels
 //@   ensures len(b.Labels) == 1 && b.Labels[0] != 0 && !add ==> delta[b.Labels[0]] == old(delta[b.Labels[0]]) - int32(int64(b.Size[0]) * int64(b.Size[1]) * int64(b.Size[2]))
 //@   ensures len(b.Labels) == 1 ==> (forall l uint64 :: l != b.Labels[0] || l == 0 ==> has(delta, l) == old(has(delta, l)) && delta[l] == old(delta[l]))
 //@   ensures len(b.Labels) == 0 ==> (forall l uint64 :: has(delta, l) == old(has(delta, l)) && delta[l] == old(delta[l]))
+
+// CalcNumLabels for solid blocks: a fresh ingest of a solid block credits its label with the whole block;
+// overwriting a solid block of label p by a solid block of label n != p credits n and debits p by the same
+// amount (no voxel is lost or duplicated); overwriting by the same label changes nothing.
+//@ spec func blockVox(b Block) int32 = int32(int64(b.Size[0]) * int64(b.Size[1]) * int64(b.Size[2]))
+//@ func Block.CalcNumLabels
+//@   prop C08
+//@   safety_off
+//@   ensures result != nil
+//@   ensures prev == nil && len(b.Labels) == 1 && b.Labels[0] != 0 ==> result[b.Labels[0]] == blockVox(b) && (forall l uint64 :: l != b.Labels[0] ==> !has(result, l))
+//@   ensures prev != nil && len(b.Labels) == 1 && len(prev.Labels) == 1 && b.Labels[0] != 0 && prev.Labels[0] != 0 && b.Labels[0] != prev.Labels[0] ==> result[b.Labels[0]] == blockVox(b) && result[prev.Labels[0]] == 0 - blockVox(*prev)
+//@   ensures prev != nil && len(b.Labels) == 1 && len(prev.Labels) == 1 && b.Labels[0] != 0 && prev.Labels[0] == b.Labels[0] ==> result[b.Labels[0]] == blockVox(b) - blockVox(*prev)
